@@ -4,10 +4,13 @@ import XModel.Acyclic
 /-!
 # C11 — printed expressions rebuild themselves
 `C11_roundtrip_partial`: the language of the theorem is refs with string / integer keys, integer
-literals (negative ones parenthesised on the left, as the repaired `__repr__` prints them), every
-binary and unary operator, and calls with positional arguments (which covers the builtin heads
-`round(x, n)`, `abs(x)`, `math.floor(x)`).  Keyword arguments, float / complex literal tokens and
-tuple keys are outside the theorem and covered by the correspondence run and the eval oracle only.
+literals and float literals (negative ones parenthesised on the left, as the repaired `__repr__` prints
+them; a float is the opaque text of `repr(float)` carried by one NUMBER token — that distinct floats have
+distinct texts which evaluate back to them is Python's guarantee, a recorded assumption outside the model),
+every binary and unary operator, and calls with positional arguments followed by keyword arguments
+`name=value` (distinct identifiers; which covers the builtin heads `round(x, n)`, `round(x, ndigits=n)`,
+`abs(x)`, `math.floor(x)`).  Complex literal tokens and tuple keys are outside the theorem and covered by
+the correspondence run and the eval oracle only.
 
 `C11_load_dump_reacts_identically` is the second sentence of the property on the manager model (pairs already
 parsed — the textual half is the round trip above): the dump of a manager, loaded into a fresh manager over the same
@@ -24,6 +27,39 @@ theorem C11_roundtrip_partial (e : Expr) (h : WFarg e) : Ev (fun n => parseExpr 
 /-- hence printing is injective: two expressions with the same text are the same expression -/
 theorem C11_print_injective (e₁ e₂ : Expr) (h₁ : WFarg e₁) (h₂ : WFarg e₂) (h : print e₁ = print e₂) : e₁ = e₂ :=
   print_injective e₁ e₂ h₁ h₂ h
+
+/-! new coverage: a call with keyword arguments and a negative float on the left of `**`,
+    `round(((-1.5) ** x), ndigits=2, tol=1e-07)` -/
+section example_kw
+def exKw : Expr :=
+  .callkw (.root "round") [.bin "**" (.flit true "1.5") (.root "x")] [("ndigits", .lit 2), ("tol", .flit false "1e-07")]
+def exKwToks : List Tok :=
+  [.name "round", .lpar, .lpar, .lpar, .op "-", .fnum "1.5", .rpar, .op "**", .name "x", .rpar, .comma,
+   .name "ndigits", .op "=", .num 2, .comma, .name "tol", .op "=", .fnum "1e-07", .rpar]
+theorem exKw_wf : WFarg exKw := by
+  simp [exKw, WFarg, WFpost, WFargs, WFkws, kwNames]
+  decide
+/-- the printed tokens -/
+theorem exKw_print : print exKw = exKwToks := by
+  simp [exKw, exKwToks, print, printLhs, printPos, printKws, printFloat, printInt]
+/-- the general theorem applies -/
+theorem C11_roundtrip_kw_float : Ev (fun n => parseExpr n (print exKw)) (exKw, []) :=
+  C11_roundtrip_partial exKw exKw_wf
+/-- and concretely, by evaluation of the parser -/
+example : parseExpr 12 exKwToks = some (exKw, []) := rfl
+/-- a negative float on the left of `**` alone: `((-1.5) ** x)` -/
+example : print (.bin "**" (.flit true "1.5") (.root "x")) =
+    [.lpar, .lpar, .op "-", .fnum "1.5", .rpar, .op "**", .name "x", .rpar] := by
+  simp [print, printLhs, printFloat]
+example : parseExpr 6 [.lpar, .lpar, .op "-", .fnum "1.5", .rpar, .op "**", .name "x", .rpar] =
+    some (.bin "**" (.flit true "1.5") (.root "x"), []) := rfl
+/-- a repeated keyword is not well formed, and (like Python) the parser rejects it -/
+example : ¬ WFarg (.callkw (.root "f") [] [("k", .lit 1), ("k", .lit 2)]) := by
+  simp [WFarg, kwNames]
+example : parseExpr 12 [.name "f", .lpar, .name "k", .op "=", .num 1, .comma, .name "k", .op "=", .num 2, .rpar] = none := rfl
+/-- a positional argument after a keyword argument is rejected -/
+example : parseExpr 12 [.name "f", .lpar, .name "k", .op "=", .num 1, .comma, .name "a", .rpar] = none := rfl
+end example_kw
 
 open Manager in
 /-- a dump loaded into a fresh manager over the same containers: same definitions, index invariant, and the new
